@@ -2,7 +2,7 @@
    Only statements, each closed by a short proof, followed by Print Assumptions. *)
 From Coq Require Import List Bool String.
 Import ListNotations.
-From JV Require Import Model.SbxGen Model.SbxCall Proofs.SbxGenProofs Proofs.SbxCallProofs.
+From JV Require Import Model.SbxGen Model.SbxCall Proofs.SbxGenProofs Proofs.SbxCallProofs Model.SbxRoute Proofs.SbxRouteProofs.
 Open Scope list_scope.
 
 (* Syntactic half.  In sandboxed mode every Call node of an expression — wherever nested: callee,
@@ -22,6 +22,15 @@ Theorem C18_calls_gated_template : forall m body, sandboxed m = true ->
   sum_list (map count_gates (gen_template m body)) = sum_list (map count_calls (template_exprs body)).
 Proof. intros m body H. split; [exact (gen_template_gated m body H)|exact (gen_template_count m body H)]. Qed.
 Print Assumptions C18_calls_gated_template.
+
+(* The gate constructor [gen] chooses for a Call node is the token the emission model of visit_Call
+   writes, and in sandboxed mode that model never writes context.call; the regenerated decision table
+   of compiler.visit_Call is compared with the model on every run. *)
+Theorem C18_call_route_as_emitted : forall m f args kw dyn dynkw,
+  In (first_write (gen m (ECall f args kw dyn dynkw))) (route_call m) /\
+  (sandboxed m = true -> ~ In "W:context.call("%string (route_call m)).
+Proof. intros m f args kw dyn dynkw. split; [exact (gen_call_route m f args kw dyn dynkw)|exact (route_call_sandboxed m)]. Qed.
+Print Assumptions C18_call_route_as_emitted.
 
 (* Semantic half.  For every safety predicate (default or overridden), every behaviour of the
    callables, attributes, items, filters, tests and operators, and every variable binding:
@@ -53,15 +62,18 @@ Proof.
 Qed.
 Print Assumptions C18_rejected_never_runs.
 
-(* with the default predicate: marked unsafe or alters_data => never runs *)
+(* with the default predicate: marked unsafe or alters_data — on the object or on its class's
+   __call__ method — => never runs *)
 Theorem C18_unsafe_never_runs :
   forall invoke_result format_result env attr_of item_of filter_res test_res op_res m e c,
-  sandboxed m = true -> c_unsafe c = true \/ c_alters c = true ->
+  sandboxed m = true ->
+  c_unsafe c = true \/ c_alters c = true \/ c_call_unsafe c = true \/ c_call_alters c = true ->
   ~ In (EvInvoke c) (fst (eval is_safe_callable_default invoke_result format_result env attr_of item_of filter_res test_res op_res (gen m e))).
 Proof.
   intros invoke_result format_result env attr_of item_of filter_res test_res op_res m e c Hs Hu.
   apply C18_rejected_never_runs; [exact Hs|].
-  unfold is_safe_callable_default. destruct Hu as [-> | ->]; [reflexivity|apply negb_false_iff, orb_true_r].
+  unfold is_safe_callable_default. apply negb_false_iff.
+  destruct Hu as [-> | [-> | [-> | ->]]]; repeat (rewrite orb_true_r || rewrite orb_true_l); reflexivity.
 Qed.
 Print Assumptions C18_unsafe_never_runs.
 
@@ -101,11 +113,29 @@ Proof.
 Qed.
 Print Assumptions C18_format_methods_routed.
 
+(* Wrappers built by the host.  [runs_inside c]: what running c runs (functools.partial(f) runs f).
+   _partial: everything that ran is accepted by the predicate in force, under the guard that accepted
+   callables only run accepted callables inside.  _refuted: without the guard an unsafe-marked
+   function wrapped in an (unmarked) functools.partial runs — recorded as known finding
+   C18-partial-wraps-unsafe. *)
+Theorem C18_wrapped_partial :
+  forall policy invoke_result format_result env attr_of item_of filter_res test_res op_res runs_inside m e c,
+  (forall w, policy w = true -> forall u, In u (runs_inside w) -> policy u = true) ->
+  sandboxed m = true ->
+  In c (ran runs_inside (fst (eval policy invoke_result format_result env attr_of item_of filter_res test_res op_res (gen m e)))) ->
+  policy c = true.
+Proof.
+  intros policy invoke_result format_result env attr_of item_of filter_res test_res op_res runs_inside m e c Hguard Hs Hin.
+  exact (ran_all_accepted policy invoke_result format_result env attr_of item_of filter_res test_res op_res
+           runs_inside (gen m e) c Hguard (gen_gated m e Hs) Hin).
+Qed.
+Print Assumptions C18_wrapped_partial.
+
 (* ------------------------------------------------------------------ witnesses *)
-Definition ex_unsafe : callable := mkCallable 1 true false false.
-Definition ex_alters : callable := mkCallable 2 false true false.
-Definition ex_safe : callable := mkCallable 3 false false false.
-Definition ex_fmt : callable := mkCallable 4 false false true.
+Definition ex_unsafe : callable := mkCallable 1 true false false false false.
+Definition ex_alters : callable := mkCallable 2 false true false false false.
+Definition ex_safe : callable := mkCallable 3 false false false false false.
+Definition ex_fmt : callable := mkCallable 4 false false true false false.
 Definition ex_env (n : string) : cval :=
   if String.eqb n "hf" then CVCallable ex_fmt else
   if String.eqb n "u" then CVCallable ex_unsafe else if String.eqb n "a" then CVCallable ex_alters
@@ -128,3 +158,19 @@ Proof. vm_compute. repeat split; reflexivity. Qed.
 Example C18_unsandboxed_refuted :
   In (EvInvoke ex_unsafe) (fst (ex_eval (mkMode false false) ex_expr)) /\ gated (gen (mkMode false false) ex_expr) = false.
 Proof. vm_compute. split; [tauto|reflexivity]. Qed.
+
+(* p = functools.partial(u): p carries no marker, running it runs the unsafe-marked u *)
+Definition ex_partial : callable := mkCallable 5 false false false false false.
+Example C18_wrapped_refuted :
+  let runs_inside := fun c => if Nat.eqb (c_id c) 5 then [ex_unsafe] else [] in
+  let log := fst (eval is_safe_callable_default (fun _ _ => CVData 7) (fun _ _ => CVData 8)
+                       (fun _ => CVCallable ex_partial) (fun v _ => v) (fun vs => hd CVUndef vs)
+                       (fun _ vs => hd CVUndef vs) (fun _ _ => CVData 1) (fun _ vs => hd CVUndef vs)
+                       (gen (mkMode true false) (ECall (EName "p") [] [] None None))) in
+  In ex_unsafe (ran runs_inside log) /\ is_safe_callable_default ex_unsafe = false.
+Proof. vm_compute. split; [tauto|reflexivity]. Qed.
+
+(* a callable instance whose class marks __call__ is refused *)
+Example C18_call_marked_example :
+  is_safe_callable_default (mkCallable 6 false false false true false) = false.
+Proof. reflexivity. Qed.
